@@ -76,6 +76,9 @@ def node_label(wf, n):
     """What the workflow file calls node ``n``: the integer itself, or a name such as 'n3' (legal: ids are only
     ever converted with str())."""
     lab = wf.get('label')
+    if lab == 'mixed':
+        # numbers and names in one workflow (legal: ids are only ever converted with str())
+        return int(n) if int(n) % 2 == 0 else 'n%d' % int(n)
     return int(n) if not lab else '%s%d' % (lab, int(n))
 
 
@@ -171,7 +174,7 @@ def _dag(rng, n, shape):
 
 
 BIG = {'nm': {3: 8, 4: 15, 5: 20, 6: 17, 8: 20, 10: 10, 12: 10}, 'nobs': {2: 12, 3: 25, 4: 25, 5: 20, 6: 10, 7: 8},
-       'ntasks': {3: 8, 4: 12, 5: 12, 6: 18, 8: 18, 10: 10, 12: 10, 15: 7, 18: 5}}
+       'ntasks': {3: 8, 4: 12, 5: 12, 6: 18, 8: 18, 10: 10, 12: 10, 15: 6, 18: 4, 36: 2}}
 
 
 def gen(seed, profile='general', big=False):
@@ -243,11 +246,13 @@ def gen(seed, profile='general', big=False):
 
     obs = []
     t = rng.choice([0, 0, 1, 3])
+    late_exact = False
     monitor = P.get('monitor', 'light')
     if monitor == 'light' and rng.random() < P.get('real_share', 0.07):
         monitor = 'real'        # the real per-timestep monitor (its to_df() calls are part of the system) in a share of every profile
     if monitor == 'light' and rng.random() < P.get('late', 0.025):
         t = rng.choice([990, 993, 996, 998, 999, 1000])      # the run crosses t = 1000
+        late_exact = rng.random() < 0.5                      # ... the first observation ending exactly there
     names = ['o%d' % i for i in range(nobs)]
     if rng.random() < 0.3:
         pool = ['emu', 'dingo', 'wallaby', 'vast', 'flash', 'possum', 'gaskap', 'craft']
@@ -267,6 +272,8 @@ def gen(seed, profile='general', big=False):
                 dur = rng.choice(cand[:6])
         if i == 0:
             start = t
+            if late_exact and dur < 400:
+                start = 1000 - dur + rng.choice([0, 0, 1])
         elif pattern == 'gaps':
             start = t + rng.randint(1, 12)
         elif pattern == 'b2b':
@@ -388,7 +395,7 @@ def gen(seed, profile='general', big=False):
         edges = [[perm[u], perm[v], rng.choice([0, 0.3, 1, 2.5, 4]) * bw_ref] for u, v in _dag(rng, n, shape)]
         wf = {'nodes': nodes, 'edges': edges}
         if rng.random() < P.get('named_nodes', 0.2):
-            wf['label'] = 'n'           # node ids are names ('n3'), not integers
+            wf['label'] = rng.choice(['n', 'n', 'mixed'])       # node ids are names ('n3'), or names and numbers mixed
         wfs.append(wf)
     for o in obs:
         if o['wf'] >= len(wfs):
@@ -407,7 +414,8 @@ def gen(seed, profile='general', big=False):
             split = {}
             for o in obs:
                 lo = rng.randint(max(mn, 1), nm)
-                split[o['name']] = [lo, rng.randint(lo, nm)]
+                # (the maximum is a cap: it may exceed the size of the cluster)
+                split[o['name']] = [lo, rng.randint(lo, nm) if rng.random() < 0.8 else nm + rng.randint(1, 5)]
             ap['resource_split'] = split
     static = {'seed': rng.randint(0, 10 ** 6),
               'style': rng.choice(['single', 'rr', 'random', 'eft'])}
